@@ -25,7 +25,8 @@ class C14(BaseCheck):
           '(quick: 30 sampled, thorough: all) 2-cut splits of the reply byte stream when the reply is '
           '<= 64 bytes, random k-cuts otherwise, each piece delivered with an inter-chunk delay so the '
           'real readAll loops; the server side is the Thrift library\'s Processor which must decode the '
-          'same method/args. non-trivial = at least 2 chunkings completed; distinct by (interface, '
+          'same method/args; every 3rd value case then issues 2-7 concurrent calls on a fresh client against a slow '
+          'server (decoded requests must be exactly the calls made, each caller gets its own reply). non-trivial = at least 2 chunkings completed; distinct by (interface, '
           'method, value classes, outcome kind, chunking class)')
   ANCHORS = ('scales.thrift.serializer:MessageSerializer.SerializeThriftCall',
              'scales.thrift.serializer:MessageSerializer.DeserializeThriftCall',
@@ -33,7 +34,7 @@ class C14(BaseCheck):
   REQUIRED_ANCHORS = ANCHORS
   REQUIRED_CLASSES = ('outcome:value', 'outcome:declared-exc', 'outcome:app-exc', 'outcome:void',
                       'iface:hello', 'iface:verif', 'iface:ext', 'chunk:1cut', 'chunk:2cut', 'chunk:kcut',
-                      'text:nonascii', 'text:empty')
+                      'text:nonascii', 'text:empty', 'concurrent')
   ASSUMPTIONS = ('interfaces: the repository\'s hello.Hello plus a hand-written module in the shape the '
                  'Thrift compiler emits (py:dynamic); no Thrift compiler is available offline',)
   QUICK_CASES = 480
@@ -203,6 +204,41 @@ class C14(BaseCheck):
         done += 1
       elif len(out.violations) > 3:
         break
+    # ---- concurrent calls on a fresh client (no idle pooled connection): every request the
+    # library decodes must be one of the calls made, every caller gets the reply to its own
+    if good and expected[0] == 'value' and idx % 3 == 0:
+      classes.add('concurrent')
+      plan['chunks'] = None
+      plan['delay'] = rng.choice([0.02, 0.2])
+      client2 = Thrift.NewClient(Iface, 'tcp://th:%d' % self.port, timeout=30)
+      n0 = len(srv.requests)
+      calls = []
+      for i in range(rng.randint(2, 7)):
+        _, m2, a2, k2, e2 = self._gen(rng)
+        tries = 0
+        while (m2 not in ('echo', 'hi', 'extra', 'blob', 'names', 'add') or e2[0] != 'value' or
+               not hasattr(client2, m2 + '_async')) and tries < 50:
+          _, m2, a2, k2, e2 = self._gen(rng)
+          tries += 1
+        if tries >= 50:
+          continue
+        calls.append((m2, a2, k2, e2, getattr(client2, m2 + '_async')(*a2, **k2)))
+        if rng.random() < 0.4:
+          env.advance(rng.random() * 0.01)
+      env.advance(3.0)
+      out.obligations += 2
+      decoded = sorted(repr((q['call'][0], q['call'][1])) for q in srv.requests[n0:] if q['call'])
+      made = sorted(repr((m2, a2 + tuple(k2.values()))) for m2, a2, k2, e2, ar in calls)
+      if decoded != made:
+        out.violate('concurrent:request-decoded-differently', 'with %d concurrent calls the Thrift library decoded %s, '
+                    'the calls made were %s' % (len(calls), decoded[:4], made[:4]), {'method': 'concurrent'})
+      for m2, a2, k2, e2, ar in calls:
+        if not ar.ready() or ar.exception is not None or ar.value != e2[1]:
+          out.violate('concurrent:reply-misreported', 'concurrent call %s%r returned %r / %r, expected %r' % (
+            m2, a2, ar.value if ar.ready() else 'pending', ar.exception if ar.ready() else None, e2[1]),
+            {'method': 'concurrent'})
+          break
+      client2.DispatcherClose()
     client.DispatcherClose()
     env.advance(0.01)
     for e in env.errors:
